@@ -174,9 +174,7 @@ Theorem workers_idle_at_commit_refuted :
            1 sched (m_init Z) = inl m' /\
     m_stg Z m' 2 = OSS.
 Proof.
-  exists 4, Witness.w_sched. destruct Witness.busy_witness as (m' & Hm & Hs & _).
-  unfold Witness.w_mp in Hm.
-  exists m'. split; [vm_compute; reflexivity|]. split; [exact Hm | exact Hs].
+  exists 4, Witness.w_sched. eexists. vm_compute. repeat split.
 Qed.
 Print Assumptions workers_idle_at_commit_refuted.
 
@@ -195,6 +193,6 @@ Theorem tie_sensitivity_refuted :
 Proof.
   exists 2, Witness.w_has_args, Witness.w_to_run, Witness.t_ev_time, Witness.w_out_state, Witness.w_trash_of, 1,
          [[[0]; [1]; [2]; [3]]], [[[1]; [0]; [2]; [3]]].
-  pose proof Witness.tie_witness as Hw. unfold Witness.t_mp, Witness.t_sp in Hw. exact Hw.
+  vm_compute. repeat split; intro Hc; discriminate Hc.
 Qed.
 Print Assumptions tie_sensitivity_refuted.
